@@ -5,7 +5,7 @@
 cd /verif || exit 2
 ids="$*"; [ -z "$ids" ] && ids=$(ls seeded)
 for id in $ids; do
-  d=seeded/$id
+  d=/verif/seeded/$id
   [ -f "$d/patch.diff" ] || continue
   git -C /repo diff --quiet || { echo "/repo is dirty, refusing"; exit 2; }
   check=$(/venv/bin/python -c "import json;m=json.load(open('$d/meta.json'));c=m.get('caught_by') or [];print(c[0] if c else m['breaks_property']+'@seed0')")
